@@ -227,8 +227,11 @@ class PausableDet(Det):
 class Motor(Base):
     """Movable, Stoppable, Readable, Stageable (optionally Locatable/Checkable) motor."""
 
-    def __init__(self, world, name, pos=0.0, delay=0.0, kind="position", readback_offset=0.0, limits=None, parent=None):
+    def __init__(self, world, name, pos=0.0, delay=0.0, kind="position", readback_offset=0.0, limits=None, parent=None, async_stop=False):
         super().__init__(world, name)
+        if async_stop:
+            # ophyd-async style: stop() is a coroutine function that really suspends once
+            self.stop = self._astop
         self.setpoint = float(pos)
         self.delay = delay
         self.kind = kind
@@ -275,6 +278,13 @@ class Motor(Base):
 
     def stop(self, success=True):
         self.world.log(self.name, "stop", success)
+        self.world.maybe_raise(self.name, "stop")
+
+    async def _astop(self, success=True):
+        import asyncio
+
+        self.world.log(self.name, "stop", success)
+        await asyncio.sleep(0)
         self.world.maybe_raise(self.name, "stop")
 
     def stage(self):
